@@ -14,8 +14,45 @@ def run(rep, tier, seed):
         rep.violation({'kind': 'proof-broken', 'log': pr['log'][-3000:], 'forbidden': pr['forbidden']}, suffix='no-failing-input-found')
     nh, nops = (32, 90) if tier == 'quick' else (1200, 300)
     import histgen
+    many_tables_segment(rep, tier, seed)
     k2check.run_k2(rep, 'C07', tier, seed, 'c07', nh, nops, extra_histories=[histgen.huge_value_history()] + [histgen.corpus_histories()[i] for i in (3, 7)])
     rep.cov['rule'] = RULES['C07'] + '; distinct_nontrivial = histories with >= 1 flush and >= 1 non-trivial compaction'
+
+def many_tables_segment(rep, tier, seed):
+    """More table files than the environment keeps open permanently (50 read-only descriptors; mmap off): every block read
+    of the others opens and closes a temporary descriptor. Reads, scans and seeks over all of them must stay complete and
+    correct round after round, and the number of open descriptors must not grow from one round to the next."""
+    import os, k2lib, k3lib
+    out = vlib.scratch_dir(); k2 = vlib.build_k2(out, 'nothread')
+    rng = vlib.Rng(seed ^ 0x7AB1)
+    n = 70 if tier == 'quick' else 120
+    keys = [b't%04d' % i for i in range(n)]
+    ops = ['open']
+    for i, k in enumerate(keys):
+        ops += ['put %s @%d:%d' % (k.hex(), rng.range(30, 90), i % 256), 'compact %s %s' % (k.hex(), k.hex())]
+    ops.append('layout')
+    rounds = 3 if tier == 'quick' else 12
+    marks = []
+    for r in range(rounds):
+        ops += ['get %s -' % k.hex() for k in keys] + ['scan -', 'rscan -', 'iter - ' + ','.join('S%s' % keys[(7 * j + r) % n].hex() for j in range(12))]
+        marks.append(len(ops)); ops.append('fds')
+    opts = {'write_buffer': 65536, 'mmap': 0, 'cache': 0, 'max_open_files': 1000, 'bloom': 10}
+    rc, txt, err = k2lib.run_c(k2, os.path.join(out, 'mt'), opts, ops)
+    calls = k2lib.parse_trace(txt)
+    rep.evaluated(len(calls)); rep.nontrivial(('many-tables', n, rounds))
+    probs = []
+    if rc != 0 or len(calls) < len(ops): probs.append('run ended early (rc=%s, %d of %d calls)' % (rc, len(calls), len(ops)))
+    else:
+        for c, o in zip(calls, ops):
+            a = o.split(' ')
+            if a[0] == 'get' and not str(c['ret']).startswith('found'): probs.append('%s returned %s' % (o, c['ret'])); break
+            if a[0] in ('scan', 'rscan', 'iter') and not str(c['ret']).endswith('status=0'): probs.append('%s ended with %s' % (o[:40], str(c['ret'])[-40:])); break
+            if a[0] == 'scan' and len(k2lib.parse_view(c['ret'].rsplit(' status=', 1)[0])) != n: probs.append('scan returned %d of %d keys' % (len(k2lib.parse_view(c['ret'].rsplit(' status=', 1)[0])), n)); break
+        fds = [int(calls[m]['ret']) for m in marks]
+        rep.cov['many_tables_open_descriptors_per_round'] = fds
+        if fds[-1] > fds[0]: probs.append('open descriptors grow from round to round: %s' % fds)
+    for pb in probs[:2]:
+        rep.violation({'kind': 'many-tables-reads', 'detail': pb, 'options': opts, 'history': ops[:8] + ['...'] + ops[-6:], 'tables': n})
 
 def replay(rep, path):
     return k2check.replay_k2(rep, path)
